@@ -1,6 +1,49 @@
 """deliberate breakages of the real source that the label-calculus contracts (contracts/c09_labels.py) must catch
 (see vf/selftest.py).  The first three entries per finding are the REVERTS of the fixes of findings 7, 11, 15."""
 MODULES = ['contracts.c09_labels']
+_FILES = ('quimb/tensor/tnag/core.py', 'quimb/tensor/tn1d/core.py', 'quimb/tensor/tn1d/dmrg.py', 'quimb/tensor/gating.py')
+
+
+def run_mutant(tmp, relpath, suffix, old, new):
+    """as vf.selftest.run_e1_mutant, but the scratch tree also holds UNMODIFIED copies of the other source files of this
+    module's carriers: the contracts call each other across files (expec_TN_1D -> tensor_network_align, DMRG.__init__ ->
+    TensorNetworkGen.align, partial_trace_to_mpo -> reindex_sites) and the callee's signature is read from the tree"""
+    import os
+    import shutil
+    from vf import pyvc
+    src = open(os.path.join("/repo", relpath)).read()
+    if src.count(old) < 1:
+        return "stale", "old text not found in the current source"
+    made = []
+    for f in _FILES:
+        dst = os.path.join(tmp, f)
+        os.makedirs(os.path.dirname(dst), exist_ok=True)
+        if f == relpath:
+            open(dst, "w").write(src.replace(old, new, 1))
+        else:
+            shutil.copyfile(os.path.join("/repo", f), dst)
+        made.append(dst)
+    pyvc.REPO = tmp
+    pyvc._SRC_CACHE.clear()
+    try:
+        cons = [v for k, v in pyvc.REGISTRY.items() if k.endswith(suffix)]
+        if not cons:
+            return "stale", f"no contract registered for {suffix}"
+        rep = pyvc.verify(cons[0])
+    finally:
+        pyvc.REPO = "/repo"
+        pyvc._SRC_CACHE.clear()
+        for dst in made:
+            os.remove(dst)
+    if rep.failed:
+        return "failed", ", ".join(sorted({o.label.split("#")[0] for o in rep.failed})[:3])
+    if rep.status != "ok":
+        return rep.status, rep.detail[:120]
+    if rep.unknown:
+        return "unknown", f"{len(rep.unknown)} undecided"
+    return "discharged", ""
+
+
 _AG = 'quimb/tensor/tnag/core.py'
 _1D = 'quimb/tensor/tn1d/core.py'
 _DM = 'quimb/tensor/tn1d/dmrg.py'
@@ -163,4 +206,35 @@ MUTANTS = [
     (_DM, '._update_local_state_2site', '        T_AB = Tensor(loc_gs.toarray().reshape(dims), uix)', '        T_AB = Tensor(loc_gs.toarray().reshape(dims), lix)', 'expect-fail'),
     (_DM, '._update_local_state_2site', '        loc_gs_old = self._k[i].contract(self._k[i + 1]).to_dense(uix)', '        loc_gs_old = self._b[i].contract(self._b[i + 1]).to_dense(lix)', 'expect-fail'),
     (_DM, '._update_local_state_2site', '            absorb=direction,', '            absorb="both",', 'expect-fail'),
+    # ======== C06: gating (label bookkeeping of the basic route, mode table of tensor_network_gate_inds)
+    # ---- _tensor_network_gate_inds_basic
+    ('quimb/tensor/gating.py', '_tensor_network_gate_inds_basic', '    gix = (*bnds, *inds) if transpose else (*inds, *bnds)', '    gix = (*inds, *bnds) if transpose else (*bnds, *inds)', 'expect-fail'),
+    ('quimb/tensor/gating.py', '_tensor_network_gate_inds_basic', '    gix = (*bnds, *inds) if transpose else (*inds, *bnds)', '    gix = (*inds, *bnds)', 'expect-fail'),
+    ('quimb/tensor/gating.py', '_tensor_network_gate_inds_basic', '    reindex_map = dict(zip(inds, bnds))', '    reindex_map = dict(zip(bnds, inds))', 'expect-fail'),
+    ('quimb/tensor/gating.py', '_tensor_network_gate_inds_basic', '    bnds = [rand_uuid() for _ in range(ng)]', '    bnds = [rand_uuid() for _ in range(ng - 1)]', 'expect-fail'),
+    ('quimb/tensor/gating.py', '_tensor_network_gate_inds_basic', '        TG = Tensor(G, inds=gix, tags=tags, left_inds=bnds)', '        TG = Tensor(G, inds=gix, tags=tags, left_inds=inds)', 'expect-fail'),
+    ('quimb/tensor/gating.py', '_tensor_network_gate_inds_basic', '    if contract is False:\n        # we just attach gate', '    if contract is True:\n        # we just attach gate', 'expect-fail'),
+    ('quimb/tensor/gating.py', '_tensor_network_gate_inds_basic', '        tn.reindex_(reindex_map)\n        tn |= TG\n        return tn', '        tn |= TG\n        return tn', 'expect-fail'),
+    ('quimb/tensor/gating.py', '_tensor_network_gate_inds_basic', '        t.gate_(G, ix, transpose=transpose)', '        t.gate_(G, ix)', 'expect-fail'),
+    ('quimb/tensor/gating.py', '_tensor_network_gate_inds_basic', '        site_tids = tn._get_tids_from_inds(bnds, which="any")', '        site_tids = tn._get_tids_from_inds(inds, which="any")', 'expect-fail'),
+    ('quimb/tensor/gating.py', '_tensor_network_gate_inds_basic', '    if isparam:\n        TG = PTensor.from_parray', '    if not isparam:\n        TG = PTensor.from_parray', 'expect-fail'),
+    ('quimb/tensor/gating.py', '_tensor_network_gate_inds_basic', '    if (ng == 1) and contract:', '    if (ng == 1) or contract:', 'expect-fail'),
+    ('quimb/tensor/gating.py', '_tensor_network_gate_inds_basic', '        tn,\n        inds,\n        contract,\n        reindex_map,\n        TG,', '        tn,\n        inds,\n        True,\n        reindex_map,\n        TG,', 'expect-fail'),
+    ('quimb/tensor/gating.py', '_tensor_network_gate_inds_basic', '        t.add_tag(tags)\n        return tn', '        t.add_tag(tags)\n        return tn.copy()', 'expect-fail'),
+    # ---- tensor_network_gate_inds (mode table)
+    ('quimb/tensor/gating.py', 'tensor_network_gate_inds', '        (gatesplitting and (ng == 1))', '        (gatesplitting and (ng == 2))', 'expect-fail'),
+    ('quimb/tensor/gating.py', 'tensor_network_gate_inds', '        ((contract == "auto-split-gate") and (ng > 2))', '        ((contract == "auto-split-gate") and (ng > 3))', 'expect-fail'),
+    ('quimb/tensor/gating.py', 'tensor_network_gate_inds', '        gatesplitting = False\n        contract = False\n\n    isparam', '        gatesplitting = False\n        contract = True\n\n    isparam', 'expect-fail'),
+    ('quimb/tensor/gating.py', 'tensor_network_gate_inds', '        elif contract and ng > 1:', '        elif contract and ng > 2:', 'expect-fail'),
+    ('quimb/tensor/gating.py', 'tensor_network_gate_inds', '            G = ar.conj(G)\n        transpose = True', '            G = ar.conj(G)\n        transpose = False', 'expect-fail'),
+    ('quimb/tensor/gating.py', 'tensor_network_gate_inds', '            G = ar.conj(G)\n        transpose = True', '            pass\n        transpose = True', 'expect-fail'),
+    ('quimb/tensor/gating.py', 'tensor_network_gate_inds', '            G = G.copy()\n            G.add_function(ar.conj)', '            G.add_function(ar.conj)', 'expect-fail'),
+    ('quimb/tensor/gating.py', 'tensor_network_gate_inds', '    tn = self if inplace else self.copy()\n\n    G = maybe_factor_gate', '    tn = self\n\n    G = maybe_factor_gate', 'expect-fail'),
+    ('quimb/tensor/gating.py', 'tensor_network_gate_inds', '        if ng > 2:\n            raise ValueError(f"`contract=', '        if ng > 3:\n            raise ValueError(f"`contract=', 'expect-fail'),
+    ('quimb/tensor/gating.py', 'tensor_network_gate_inds', '    check_opt("contract", contract, _VALID_GATE_CONTRACT)', '    check_opt("contract", contract, _SPLIT_GATE_CONTRACT)', 'expect-fail'),
+    ('quimb/tensor/gating.py', 'tensor_network_gate_inds', '_VALID_GATE_CONTRACT = _BASIC_GATE_CONTRACT | _SPLIT_GATE_CONTRACT', '_VALID_GATE_CONTRACT = _BASIC_GATE_CONTRACT', 'expect-fail'),
+    ('quimb/tensor/gating.py', 'tensor_network_gate_inds', '            isparam,\n            info,\n            transpose,\n            **compress_opts,\n        )\n\n    return tn', '            isparam,\n            info,\n            False,\n            **compress_opts,\n        )\n\n    return tn', 'expect-fail'),
+    ('quimb/tensor/gating.py', 'tensor_network_gate_inds', '_SPLIT_GATE_CONTRACT = {\n    "auto-split-gate",\n    "split-gate",', '_SPLIT_GATE_CONTRACT = {\n    "auto-split-gate",\n    "split",', 'expect-fail'),
+    ('quimb/tensor/gating.py', 'tensor_network_gate_inds', '    return tn\n\n\ndef _tensor_network_gate_sandwich_inds_eager_split', '    return self\n\n\ndef _tensor_network_gate_sandwich_inds_eager_split', 'expect-fail'),
+    ('quimb/tensor/gating.py', 'tensor_network_gate_inds', '        if contract == "auto-split-gate":\n            # simply don\'t split\n            gatesplitting = False\n            contract = False', '        if contract == "auto-split-gate":\n            # simply don\'t split\n            gatesplitting = False', 'expect-fail'),
 ]
